@@ -243,6 +243,26 @@ CLAIMED["C12"] = dict(
     note=API_NOTE + "A report that differs only in a field no public attribute shows (timer flag bit, digits of a disabled timer, update sign 1 vs 2) may or may not notify: "
          "the statement forbids invocation only for an identical report; counted in the evidence.")
 
+CLAIMED["C19"] = dict(
+    text="Theorems in Props/C19.lean (lemmas in Lemmas/ApiEquiv.lean) relating the two API models through one abstract description of what both "
+         "protocols can express (AbsAc / AbsZone with explicit well-formedness conditions and two embeddings into the AT4 and AT5 message models, proved "
+         "expressible in both): on objects holding the two embeddings of one abstract entity every getter both generations support returns the same value "
+         "(ac_attributes_equal, zone_attributes_equal; the models' VIEW texts are renderings of that projection up to model, resolution and power "
+         "controls); a relation between model states is established by `init; conn` on fresh objects and preserved by EVERY pair of embedded messages in "
+         "every handshake or connected state (step_rel), so after the handshake and any sequence of embedded status / timer / error / version messages "
+         "the projected views are equal (fresh_run_view, view_eq_of_allTurbo); for related states every call with common arguments has the same outcome "
+         "in both models - the same error, or one send each with the same retry policy and corresponding meanings under the vendor readers of the C04 "
+         "theorems (ac_set_*_alike, zone_set_*_alike, *_same_meaning_on_the_wire); the documented differences are proved as such "
+         "(*_documented_difference: resolution and rounding bound, away / sleep, intelligent auto, bypass, per-mode limits). Direct judgement on the "
+         "REAL objects: one abstract installation and history rendered byte by byte for each generation, views compared after every frame, calls "
+         "accepted / refused alike, frames of accepted calls read by each generation's vendor reader and compared.",
+    design_ref="DESIGN.md section 7, C19 and section 12.4",
+    technique="Lean 4 proof (simulation relation between the two API models over a common abstract description; call outcomes and wire meanings) + differential of each model against its implementation + cross-generation comparison of the real objects",
+    note=API_NOTE + "Outside what both protocols can express, hence outside the quantifier, and proved as explicit theorems rather than hidden: AirTouch 4's per-group turbo-support bit "
+         "(AirTouch 5 always offers TURBO), zone set-points outside 10..35 degC (accepted by both APIs, unencodable on AirTouch 5), a lone AirTouch 4 AC without group bitmap owning "
+         "every named group, and the order of `zones` within an AirTouch 4 AC (CPython set order of the bitmap). Not covered by the theorems: quick-timer calls, check_for_updates, "
+         "shutdown / reconnect / time, subscriptions (covered per generation by C11, C12, C14, C15).")
+
 NOT_YET = {
 }
 
